@@ -109,7 +109,15 @@ func genCase(t *rapid.T) Case {
 	}
 	nPlain := rapid.IntRange(1, 6).Draw(t, "nPlain")
 	for i := 0; i < nPlain; i++ {
-		c.Pool = append(c.Pool, User{Name: fmt.Sprintf("user%d", i)})
+		name := fmt.Sprintf("user%d", i)
+		// user names may be up to 64 bytes long (constant.MaxUserNameLen); the
+		// hint is a hash over name || nonce[:16], so lengths around 48 (name +
+		// 16 = one SHA-256 block) and the maximum are boundary values
+		if L := rapid.SampledFrom([]int{0, 0, 0, 31, 32, 47, 48, 49, 55, 56, 57, 63, 64}).Draw(t, "nameLen"); L > len(name) {
+			pad := "-long-name-0123456789abcdefghijklmnopqrstuvwxyzABCDEFGHIJKLMNOPQRSTUVWXYZ"
+			name = (name + pad)[:L]
+		}
+		c.Pool = append(c.Pool, User{Name: name})
 	}
 	if rapid.IntRange(0, 3).Draw(t, "manyUsers") == 0 {
 		for i := 0; i < 30; i++ {
